@@ -418,6 +418,23 @@ func (e *Engine) invoke(st *State, fv Value, args []Value, cc *ssa.CallCommon, i
 			e.panicPath(st, "call of nil func", ins)
 			return nil
 		}
+		if x.Builtin == "reflect.swapper" {
+			s := x.Bindings[0].(Slice)
+			i, ok1 := args[0].(*Term)
+			j, ok2 := args[1].(*Term)
+			if !ok1 || !ok2 || s.Obj == nil {
+				e.panicPath(st, "reflect.Swapper index", ins)
+				return nil
+			}
+			if !e.boundsCheck(st, e.tt.BAnd(e.tt.ULt(i, s.Len), e.tt.ULt(j, s.Len)), "reflect: slice index out of range", ins) {
+				return nil
+			}
+			pi, pj := e.sliceElemPtr(s, i), e.sliceElemPtr(s, j)
+			vi, vj := e.loadPtr(st, pi), e.loadPtr(st, pj)
+			e.storePtr(st, pi, vj)
+			e.storePtr(st, pj, vi)
+			return e.ret(st, Tuple{})
+		}
 		if x.Builtin != "" {
 			return e.callBuiltin(st, x.Builtin, args, cc, ins)
 		}
